@@ -601,6 +601,22 @@ def special_values_job(tn):
                     out[name].append(dict(x=repr(x), raised=repr(e)[:160]))
                 finally:
                     signal.alarm(0)
+        # float2expansion / number2expansion of values that are infinite, NaN, or finite but beyond the range of the word type
+        out["special-values/float2expansion"] = []
+        wide = {"float16": numpy.float32(1e30), "float32": numpy.float64(1e300), "float64": None}[tn]
+        for x in (t(numpy.inf), t(-numpy.inf), t(numpy.nan)) + ((wide,) if wide is not None else ()):
+            signal.alarm(5)
+            try:
+                w = U.float2expansion(t, x)
+                ok = len(w) >= 1 and (numpy.isnan(w[0]) if numpy.isnan(x) else bool(numpy.isinf(w[0]) and (w[0] > 0) == (x > 0)))
+                if not ok:
+                    out["special-values/float2expansion"].append(dict(x=repr(x), words=[repr(u) for u in w]))
+            except TO:
+                out["special-values/float2expansion"].append(dict(x=repr(x), problem="does not terminate within 5 s"))
+            except Exception as e:
+                out["special-values/float2expansion"].append(dict(x=repr(x), raised=repr(e)[:160]))
+            finally:
+                signal.alarm(0)
         # NaN has no fraction: silently returning a finite value turns NaN into infinity on the way back
         try:
             q = U.float2fraction(t(numpy.nan))
